@@ -127,6 +127,29 @@ GRAPHS['return_in_loops'] = {
                                          FE('c', 'cs', [FE('d', 'cs', [IF(B('==', A(V('d'), 'val'), P('P1')), [RET(B('+', I(500), I(1)))])])]),
                                          RET(I(7))],
     ('bridge', 'Br'): [WH(T, [IF(B('>', P('x'), I(0)), [RET(I(1))]), RET(I(2))]), RET(I(3))]}
+GRAPHS['multi_bridge'] = {
+    # one external entity with three bridges whose rows are NOT in alphabetical order of their names
+    ('function', 'F1'): [let('x', call('bridge', 'MYEE', 'Br', x=P('a'))), let('y', call('bridge', 'MYEE', 'Zeta', x=P('a'))),
+                         let('z', call('bridge', 'MYEE', 'Alpha', x=P('b'))), ('callstmt', call('bridge', 'MYEE', 'Zeta', x=I(1)), 'bridge'),
+                         RET(B('+', B('*', V('x'), I(10000)), B('+', B('*', V('y'), I(100)), V('z'))))],
+    ('bridge', 'Br'): [RET(B('+', P('x'), I(1)))],
+    ('bridge', 'Zeta'): [RET(B('*', P('x'), I(2)))],
+    ('bridge', 'Alpha'): [RET(B('-', P('x'), I(3)))]}
+GRAPHS['statement_keywords'] = {
+    # invocation STATEMENTS with and without the transform / bridge keyword all execute their body once (side effect: val += ...)
+    ('function', 'F1'): [('select', 'any', 'c', 'Class', None),
+                         ('callstmt', call('class', 'Class', 'Class_Based_Operation', P1=I(1), P2=P('a')), 'transform'),
+                         ('callstmt', call('class', 'Class', 'Class_Based_Operation', P1=I(10), P2=P('a'))),
+                         ('callstmt', call('instance', V('c'), 'Instance_Based_Operation', P1=I(100), P2=P('b')), 'transform'),
+                         ('callstmt', call('instance', V('c'), 'Instance_Based_Operation', P1=I(1000), P2=P('b'))),
+                         ('callstmt', call('bridge', 'MYEE', 'Br', x=I(10000)), 'bridge'),
+                         ('callstmt', call('bridge', 'MYEE', 'Br', x=I(100000))),
+                         ('callstmt', FN('F2', x=I(1000000))),
+                         RET(A(V('c'), 'val'))],
+    ('class', 'Class_Based_Operation'): [('select', 'any', 'k', 'Class', None), seta('k', 'val', B('+', A(V('k'), 'val'), P('P1'))), RET(P('P2'))],
+    ('instance', 'Instance_Based_Operation'): [('assign', A(SELF, 'val'), B('+', A(SELF, 'val'), P('P1'))), RET(P('P2'))],
+    ('bridge', 'Br'): [('select', 'any', 'k', 'Class', None), seta('k', 'val', B('+', A(V('k'), 'val'), P('x')))],
+    ('function', 'F2'): [('select', 'any', 'k', 'Class', None), seta('k', 'val', B('+', A(V('k'), 'val'), P('x')))]}
 G = GRAPHS[GRAPH]
 STYLE = PARAMS.get('style', 'lower')
 BP = None
@@ -145,6 +168,8 @@ def load_bp():
     xtuml.relate(pe, one(proto).PE_PE[8001].EP_PKG[8000](), 8000)
     s_brg = m.new('S_BRG', Name='Br')
     xtuml.relate(s_brg, s_ee, 19)
+    for extra in ('Zeta', 'Alpha'):        # row order Br, Zeta, Alpha: not alphabetical
+        xtuml.relate(m.new('S_BRG', Name=extra), s_ee, 19)
     s_ee2 = m.new('S_EE', Name='Other EE', Key_Lett='OTHER')
     pe2 = m.new('PE_PE')
     xtuml.relate(s_ee2, pe2, 8001)
